@@ -409,3 +409,34 @@ CHECKS['C04'].update({
     'technique': "Lean 4 soundness/completeness proof of the capture matcher w.r.t. the declarative regex semantics + characterisation of the "
                  "match model + side-clause theorems; exact-sequence correspondence and direct glob-vs-globmatch search",
 })
+CHECKS['C03'].update({
+    'text': "Theorems (Lean) on the FAITHFUL PORT of WcParse, for EVERY string as a pattern (malformed ones included): fnmatch mode — "
+            "C03_upper_faithful / _sharp (a name beginning with '.' is matched without DOTMATCH only if the pattern text begins with a written '.' "
+            "or with a leaky extended group: D5 is exactly that disjunct); PATH mode (Unix rules; REALPATH, NODOTDIR, GLOBSTAR, EXTGLOB, case mode "
+            "arbitrary; MATCHBASE excluded — D6 witnessed) — C03_upper_path_first (first piece hidden => written dot first, or one of the three "
+            "recorded leak shapes: extended group first (D5), star then non-plain token (D4), globstar first), C03_upper_path_any / _kind / _sharp "
+            "(a path with a hidden piece ANYWHERE is matched only if the emitted item list has a segment that starts with a written dot or has the "
+            "D4 / D5 shape; the parser never emits an unclassified item at a segment start: parseItems_kinds), C03_dotdir_path / _kind / _sharp "
+            "(under DOTGLOB a piece that is exactly `.` or `..` is matched only through a written dot, D5 or D15 — each witnessed). Tidy compiler: "
+            "upper and lower bound (granted). Search: Must ⊆ code ⊆ May sandwich on grammar patterns; EVERY dot-free string <= 4 (5) over the "
+            "metacharacter alphabet + mutations must reject every hidden name (attribution by the item kinds the Lean port emits); `.`/`..` under "
+            "DOTGLOB; real trees with hidden files / directories / dot-named links through glob, iglob, Path.glob/rglob, WcMatch; K5 on those trees.",
+    'note': TB + "stage 2/3 conclusions are stated on the emitted item list (segScan / kscan), stage 1 on the pattern text; Windows rules and "
+            "MATCHBASE are outside the theorems (searched). Open known findings KF-D4, KF-D5, KF-D6, KF-D15, KF-D1p (decide+kernel witnesses on the "
+            "faithful port).",
+    'technique': "Lean 4 theorems over all strings on the faithful parser model, fnmatch and path mode (stack-edit view of the pass, segment "
+                 "scan, leak-kind automaton) + tidy-compiler bounds; sandwich, exhaustive dot-free strings, dot-directory and real-tree search",
+})
+_c17 = CHECKS['C17']['text']
+CHECKS['C17'].update({
+    'text': _c17.replace("Tie: K1 / K3 under the four flags",
+            "win_eq_unix_ci / forcewin_eq_unix_ignorecase — for EVERY backslash-free pattern without a drive/UNC prefix (path mode; fnmatch mode "
+            "without brackets, or with a decidable side condition), the regex emitted under Windows rules is the separator-mapped image of the "
+            "regex emitted under Unix rules + IGNORECASE (lock-step simulation through the whole pass) and accepts a name iff the Unix regex "
+            "accepts the name with every `\\\\` replaced by `/` (semantic simulation ms_sim, all constructors incl. look-aheads and negated "
+            "classes); win_sep_interchangeable; each hypothesis shown necessary by a decide+kernel counterexample (escaped backslash, drive "
+            "letter under CASE, UNC single separator, REALPATH `x:`, fnmatch brackets `[/]` / `[A-a]`); the top-level escaped backslash is a "
+            "separator (rootLoop_escaped_backslash). Tie: K1 / K3 under the four flags"),
+    'note': TB + "drive / UNC prefix clauses, REALPATH under Windows rules and fnmatch-mode patterns with both brackets and '/' are searched, not "
+            "proved (for `[/]`-type classes the clause is false in fnmatch mode: witnessed); case folding is ASCII.",
+})
